@@ -205,6 +205,9 @@ def subtree_at(root, path):
     return n
 
 
+DOC_NAME = re.compile(rb"[A-Za-z*][-A-Za-z0-9_*]*\Z")
+
+
 def c05_oracle(script, rec):
     """Returns list of violation descriptions."""
     impl_lines = rec["impl"]
@@ -224,6 +227,10 @@ def c05_oracle(script, rec):
             if last_op is not None:
                 prev = None    # two ops without a dump in between: cannot attribute
             last_op = (op, out)
+            f = op.split(" ")
+            if f[0] == "add" and len(f) >= 4 and f[1] == "." and f[2].startswith("h") and out and \
+                    out[0].startswith("R n") and out[0] != "R n-" and not DOC_NAME.match(unhx(f[2])):
+                bad.append("'%s': %r is not a name ([A-Za-z*][-A-Za-z0-9_*]*) but the root group accepted a member of that name" % (op, unhx(f[2])))
     return bad
 
 
@@ -251,6 +258,11 @@ def c05_step(op, out, before, after):
         kty = {"i": 2, "l": 3, "f": 4, "s": 5, "b": 6}.get(f[1])
         if bp is not None and kty is not None and (int(bp.ty) == 8 or (int(bp.ty) == 7 and (not bp.kids or int(bp.kids[0].ty) == kty))):
             bad.append("'%s': a negative index appends, but the call failed on an aggregate that accepts a %s element" % (op, f[1]))
+    if cmd == "add" and r.startswith("n") and r != "n-" and len(f) >= 4 and f[2].startswith("h"):
+        ppath = () if f[1] == "." else tuple(int(x) for x in f[1].split("/"))
+        bp = subtree_at(b_root, ppath)
+        if bp is not None and int(bp.ty) == 1 and not DOC_NAME.match(unhx(f[2])):
+            bad.append("'%s': %r is not a name ([A-Za-z*][-A-Za-z0-9_*]*) but the group accepted a member of that name" % (op, unhx(f[2])))
     if cmd in ("add", "eset") and r == "n-" or cmd in ("rm", "rmi", "set", "setfmt") and r == "i0":
         if bsig != asig:
             bad.append("'%s' reported failure but changed the configuration" % op)
@@ -1300,6 +1312,7 @@ def c16_oracle(script, rec):
     prev = None
     dtor_on = False
     pending = []      # ops since the previous dump: (op, dtor calls)
+    last_out = {}
     for op, out in al:
         f = op.split(" ")
         if op == "dump":
@@ -1329,11 +1342,21 @@ def c16_oracle(script, rec):
                     for h in calls:
                         if h in cur and prev.count(h) <= cur.count(h):
                             bad.append("destructor called on hook %s whose setting is still alive" % h)
+            # a setting that config_setting_add has just created carries no hook (it is a new setting, also when it
+            # replaces a member of the same name under the override option)
+            if root is not None and len(pending) == 1 and pending[0][0].startswith("add ") and pending[0][0] in last_out:
+                r = last_out[pending[0][0]]
+                if r.startswith("R n") and r != "R n-":
+                    node = subtree_at(root, tuple(int(x) for x in r[3:].split("/")))
+                    if node is not None and node.hook != "-":
+                        bad.append("'%s' created a setting that already carries hook %s: the replaced member's hook was "
+                                   "neither released nor dropped" % (pending[0][0], node.hook))
             prev = cur
             pending = []
         else:
             calls = [l.split(" ")[2] for l in out if l.startswith("L dtor ")]
             pending.append((op, calls))
+            last_out = {op: next((l for l in out if l.startswith("R ")), "")}
             if f[0] in ("hook", "chook") and calls:
                 bad.append("'%s': attaching a hook called the destructor on %s although no setting was destroyed "
                            "(config_setting_set_hook only stores the pointer)" % (op, calls))
@@ -2880,6 +2903,18 @@ def run_c20(ctx):
                 texts.append(b"pre = 1;\n" + b"n" * n + b" = 1;\npost = 2;\n")
             else:
                 texts.append(b"pre = 1;\nw =" + b" " * n + b"3;\npost = 2;\n")
+        # texts of EXACTLY a buffer-like size (stdio's BUFSIZ, the page, the scanner's read block and buffer, and one
+        # less / more) whose last byte is significant (no trailing line feed): a digit of a number, a closing brace, the
+        # closing quote of a string, a semicolon
+        head = b"".join(b"s%d = %d;\n" % (j, j) for j in range(9000))
+        for n in (512, 1024, 4095, 4096, 4097, 8191, 8192, 8193, 16383, 16384, 16385, 32768, 65536):
+            for ending in (b"v = 987654321", b"g = { a = 1; }", b"t = \"xyz\"", b"w = 2;", b"l = ( 1, 2 )"):
+                room = n - len(ending)
+                body = head[:room]
+                body = body[:body.rfind(b"\n") + 1]
+                t = body + b" " * (room - len(body)) + ending
+                assert len(t) == n
+                texts.append(t)
         # texts without a single token (empty, blanks, comments only), read into a configuration that already holds
         # settings: every entry point has to replace them
         blanks = [b"", b" ", b"\n", b"\t\r\n \n", b"# only a comment\n", b"/* c */", b"// c", b"\n\n# c\n\n"]
